@@ -360,6 +360,15 @@ def run_case(case):
                     ep.get_solve_discrete_problem = orig_gsdp
             raw2 = f2(dsl.lcm_params(p))
             out2 = pipeline.to_np_list(raw2)
+            if case.get("index", 0) % 2 == 1:
+                # second call of the SAME non-jitted function object
+                n_ev = len(events)
+                out2b = pipeline.to_np_list(f2(dsl.lcm_params(p, leaf="np")))
+                del events[n_ev:]
+                del captured[len(out2):]
+                add("jit_false_second_calls")
+                if len(out2b) != len(out2) or any(a_.shape != b_.shape or maxdev(a_, b_) > tol for a_, b_ in zip(out2, out2b)):
+                    res["violations"].append({"key": "second_call_differs", "what": f"second call of the same solve function (jit=False, same parameters) returns {len(out2b)} arrays; the first call returned {len(out2)} (or the values differ)"})
             # trace specification: (cont, emax) x T; the array entering step j is the array that
             # left step j-1 (None first); the returned list is the outputs in reverse order
             try:
